@@ -112,6 +112,9 @@ def child_hello() -> Dict[str, Any]:
 
     from chuk_mcp.protocol import fast_json
 
+    if os.environ.get("VF_C17_CODEC_ONLY"):
+        # workers that only ever fork children calling fast_json: keep the process small, forks are cheaper
+        return {"HAS_ORJSON": bool(fast_json.HAS_ORJSON), "orjson_loaded": "orjson" in sys.modules}
     from chuk_mcp.protocol import mcp_pydantic_base as b
 
     return {"HAS_ORJSON": bool(fast_json.HAS_ORJSON), "orjson_loaded": "orjson" in sys.modules,
@@ -232,6 +235,10 @@ def child_handle(case: Any) -> Any:
         return child_message(dec(case[1]))
     if op == "state":
         return child_state(dec(case[1]))
+    if op == "seq":
+        from .. import encseq
+
+        return encseq.child_seq(case)
     if op == "enc":
         v = dec(case[1])
         level = case[2] if len(case) > 2 else "full"
@@ -774,6 +781,46 @@ def run(tier: str, only=None) -> core.Result:
                 p.close()
         samples.append({"group": "message-path", "message": msgs[len(msgs) // 3]})
 
+    # ENCODE statefulness: ordered pairs and triples of dumps() / model_dump_json() calls, each sequence in a process of its own
+    from .. import encseq, orderdep as _od
+
+    seq_info: Dict[str, Any] = {}
+    seq_audit: Dict[str, list] = {}
+    if not res.harness_errors:
+        plan = [("dumps", {**cfg, "env_set": {**cfg.get("env_set", {}), "VF_C17_CODEC_ONLY": "1"}}, encseq.dumps_sequences(tier))
+                for cfg in CONFIGS] + \
+               [("model", cfg, encseq.model_sequences(tier)) for cfg in MSG_CONFIGS]
+        n_each = max(1, workers.n_total_workers() // 4)
+
+        def run_plan(item):
+            kind, cfg, seqs = item
+            cases = [["seq", kind, sq] for sq in seqs]
+            with workers.Pool(cfg, HANDLER, n_each) as pool:
+                return cases, pool.map(cases, batch=40)
+
+        done = _od.per_config([{"name": f"{k}:{c['name']}", "item": (k, c, sq)} for k, c, sq in plan], lambda x: run_plan(x["item"]))
+        for kind, cfg, seqs in plan:
+            cases, answers = done[f"{kind}:{cfg['name']}"]
+            for i in workers.audit_indices(cases, 11):
+                seq_audit.setdefault(f"{kind}:{cfg['name']}", []).append((cases[i], answers[i]))
+            try:
+                viol, counters = encseq.judge(kind, cfg["name"], seqs, answers)
+            except RuntimeError as e:
+                res.harness_errors.append(f"sequence worker ({kind}, {cfg['name']}): {str(e)[-400:]}")
+                continue
+            for k_, n_ in counters.items():
+                tally.add(f"encode_sequences:{kind}:{k_}", n_)
+            seq_info[f"{kind}:{cfg['name']}"] = counters
+            for (si, sig, msg) in viol:
+                k_ = json.dumps(sig, sort_keys=True)
+                viol_sigs[k_] = viol_sigs.get(k_, 0) + 1
+                if viol_sigs[k_] <= 8:
+                    res.add_violation(sig, msg, {"ref": "vf.checks.c17:replay_case",
+                                                 "args": {"sequence": seqs[si], "layer": kind, "config": cfg["name"]}})
+                else:
+                    res.violation_total += 1
+        samples.append({"group": "encode-sequence", "calls": encseq.describe("dumps", plan[0][2][len(plan[0][2]) // 2])})
+
     phases["messages"] = round(_time.time() - t_start - phases["values"], 1)
     # determinism audit: fresh workers per configuration answer a 1-in-N subset again (all configurations concurrently)
     from .. import orderdep
@@ -783,7 +830,10 @@ def run(tier: str, only=None) -> core.Result:
             for cfg in CONFIGS] + \
            [({**cfg, "name": "state:" + cfg["name"]}, [p_ for p_ in audit_store.get(cfg["name"], []) if p_[0][0] == "state"])
             for cfg in CONFIGS] + \
-           [({**cfg, "name": "msg:" + cfg["name"]}, msg_audit.get(cfg["name"], [])) for cfg in MSG_CONFIGS]
+           [({**cfg, "name": "msg:" + cfg["name"]}, msg_audit.get(cfg["name"], [])) for cfg in MSG_CONFIGS] + \
+           [({**cfg, "env_set": {"VF_C17_CODEC_ONLY": "1"}, "name": "seq-dumps:" + cfg["name"]},
+             seq_audit.get("dumps:" + cfg["name"], [])) for cfg in CONFIGS] + \
+           [({**cfg, "name": "seq-model:" + cfg["name"]}, seq_audit.get("model:" + cfg["name"], [])) for cfg in MSG_CONFIGS]
     jobs = [(cfg, pairs) for cfg, pairs in jobs if pairs]
 
     def reask(cfg):
@@ -824,7 +874,9 @@ def run(tier: str, only=None) -> core.Result:
         res.harness_errors.append("vacuous: the two configurations never produced different encodings - is orjson really masked?")
     cov = res.coverage
     cov["evaluations"] = tally.c.get("roundtrips_judged", 0) + tally.c.get("message_roundtrips_judged", 0) + \
-        tally.c.get("decode_mutate_decode_sequences", 0)
+        tally.c.get("decode_mutate_decode_sequences", 0) + \
+        sum(v.get("calls_compared_with_fresh_process", 0) for v in seq_info.values())
+    cov["encode_sequences"] = seq_info
     cov["message_path"] = {"messages": len(msgs), "configurations": msg_hello,
                            "encodings": tally.c.get("message_encodings", 0),
                            "distinct_single_line_encodings": tally.c.get("message_distinct_encodings", 0),
@@ -855,7 +907,12 @@ def run(tier: str, only=None) -> core.Result:
         "check_circular, allow_nan, skipkeys, cls; incl. the call the fallback model base makes) and each distinct encoding x {orjson, stdlib} "
         "x {loads(str), loads(bytes), load(text fp), load(bytes fp)}; evaluations = round trips judged; distinct = distinct "
         "values by type-strict canonical form; non-trivial = contains a float, an integer beyond +-2^53 or a string/key "
-        "that is not printable ASCII or needs escaping; statefulness: every container value x {orjson, stdlib} x 4 decoding entry "
+        "that is not printable ASCII or needs escaping; encode statefulness: every ordered pair (on every pair of 6 values, "
+        "incl. values that take the stdlib path under orjson: 2^64, nesting beyond orjson's limit, a lone surrogate, an object "
+        "needing default=) and every ordered triple (quick: the triples a,b,a and a,a,b on two value patterns; thorough: all triples on 13 value patterns) of dumps() calls "
+        "over 13 option sets, and pairs/triples of model_dump_json calls (3 models x 5 argument sets) in the four message "
+        "configurations, each sequence in a freshly forked process, every call compared with the same call made first in a "
+        "fresh process; decode statefulness: every container value x {orjson, stdlib} x 4 decoding entry "
         "points: decode twice (no shared nested container), mutate the first result in place at depth 0-2, decode again "
         "through all 4 entry points (must equal v); message path: JSON-RPC requests/notifications/results/errors x 6 ids x "
         "7 payloads (line breaks, U+2028/2029/0085, NUL, 64-bit boundary ints, floats, nesting, _meta/schema keys) as "
@@ -869,6 +926,7 @@ def run(tier: str, only=None) -> core.Result:
         "output for a non-null indent (incl. indent=0, which the standard library renders over several lines) is not a compact encoding and is not judged",
         "message path: the value a message stands for is its own model_dump with the same arguments, taken in the producing worker; a difference of that value between the Pydantic and the fallback backend is C09's subject and only counted here",
         "fast_json.dump is judged with a text file object (the json.dump contract); dump to a binary file object works only with orjson and is not judged",
+        "encode statefulness: 'a fresh process' is a fork of a worker that has imported the library and has never called an encoder; outputs are compared by length and a 80-bit digest",
         "statefulness part: the in-place mutations are an append and an item replacement on every list, a new key and a key deletion on every dict, at nesting depth 0-2 of the decoded value; the value must decode unchanged afterwards through every decoding entry point",
         "the orjson-masked worker models 'orjson not installed' by an import blocker placed on sys.meta_path before chuk_mcp is imported",
     ]
@@ -876,6 +934,18 @@ def run(tier: str, only=None) -> core.Result:
 
 
 def replay_case(args: Dict[str, Any]) -> Dict[str, Any]:
+    if "sequence" in args:
+        from .. import encseq
+
+        cfg = [c for c in (CONFIGS + MSG_CONFIGS) if c["name"] == args["config"]][0]
+        seq = args["sequence"]
+        cases = [["seq", args["layer"], [c], True] for c in seq] + [["seq", args["layer"], seq, True]]
+        with workers.Pool(cfg, HANDLER, 1) as pool:
+            ans = pool.map(cases, batch=1)
+        viol, _ = encseq.judge(args["layer"], cfg["name"], [[c] for c in seq] + [seq], ans)
+        return {"sequence": encseq.describe(args["layer"], seq), "config": cfg["name"],
+                "each_call_first_in_a_fresh_process": [a[0] for a in ans[:-1]], "in_sequence": ans[-1],
+                "violations": [{"sig": s_, "msg": m} for (_, s_, m) in viol]}
     if "message" in args:
         m = dec(args["message"])
         tally = Tally()
